@@ -61,6 +61,7 @@ class SimpleDispatch(Contract):
     name = "numpoly.simple_dispatch"
     relpath = "numpoly/dispatch.py"
     func = "simple_dispatch"
+    positional = ("numpy_func", "inputs", "out")
     properties = ("C01", "C10", "C11", "C12", "C17")
     assumptions = ("out=None (the out= path writes into a caller-provided polynomial: unverified)",
                    "B5: a polynomial whose coefficient columns are F(columns of the aligned operands) denotes F-hat(operands)",
